@@ -37,27 +37,42 @@ def run(ctx):
     for bb, t in pp.calls(loop):
         if M.callee_str(t["f"]) == "std::vec::Vec::<T, A>::push":
             ret_slot = T.addr(t["args"][0])
+    def spawn_err_edges(bb):
+        """edges taken when the spawn at bb failed: the Break edge of `?`, or the Err arm of an explicit match on its result"""
+        e = try_err_edges(pp, T, lambda c: c[3] == bb)
+        e += variant_edges(pp, T, lambda t_: t_[0] == "call" and t_[3] == bb, 1, [0, 1], "std::result::Result<")
+        return e
+
     for bb, t in spawns:
-        err_e = try_err_edges(pp, T, lambda c: c[3] == bb)
-        ctx.ob("R14.1", "spawn-error-edge", len(err_e) == 1, pp.loc(bb), "the result of the spawn is propagated with `?` (error edges: %s)" % err_e)
+        err_e = spawn_err_edges(bb)
+        ctx.ob("R14.1", "spawn-error-edge", len(err_e) == 1, pp.loc(bb), "the failure of the spawn is handled on one error edge (`?` or an explicit match): %s" % err_e)
         for e in err_e:
             after = pp.reachable(e[1])
             again = [b for b, _ in spawns if b in after]
             ctx.ob("R14.1", "no-spawn-after-failure", not again, pp.loc(bb), "after a stage fails to start no further stage may be started (spawn blocks reachable from the error edge: %s)" % again)
             ctx.ob("R14.1", "failure-leaves-loop", not (after & loop), pp.loc(bb), "the error edge must leave the spawn loop (loop blocks still reachable: %s)" % sorted(after & loop))
-            # the Vec<Popen> built so far is dropped on the way out
+            # the Vec<Popen> built so far is dropped as a whole (first stage first) on the way out
             drops = [b for b in after if pp.blocks[b]["term"]["k"] == "drop" and ret_slot is not None and not pp.blocks[b]["term"]["p"]["proj"]
                      and pp.blocks[b]["term"]["p"]["l"] == ret_slot[1][1]]
             rets = [b for b in pp.return_blocks() if b in after]
             ok = bool(drops) and bool(rets) and all(dominated_by_blocks(pp, r, drops, start=e[1]) for r in rets)
             ctx.ob("R14.1", "failure-drops-started-stages", ok, pp.loc(bb), "on the error path the vector of already started Popens must be dropped before returning (drops at %s)" % drops)
+            # ... and not taken apart element by element: the first stage owns the pipeline's stdin pipe and must be
+            # dropped (its stdin closed) before any later stage is waited for; Vec's own drop does first-to-last
+            piecemeal = []
+            for b2, t2 in pp.calls(after):
+                if t2["args"] and T.addr(t2["args"][0]) == ret_slot:
+                    piecemeal.append(M.callee_str(t2["f"]).split("::")[-1])
+            ctx.ob("R14.1", "started-stages-dropped-first-to-last", not piecemeal, pp.loc(bb),
+                   "on the error path the started stages must be dropped in start order (the Vec as a whole): operations %s on the vector reorder the drops, and a stage that "
+                   "is waited for before the first stage's stdin pipe is closed never sees end-of-file" % piecemeal)
             # R14.4 the error is that stage's error
-            fr = [(b, t2) for b, t2 in pp.calls(after) if "FromResidual" in M.callee_str(t2["f"]) and not t2["dest"]["proj"] and t2["dest"]["l"] == 0]
-            ok = len(fr) == 1
-            if ok:
-                a = T.operand(fr[0][1]["args"][0])
-                ok = M.contains(a, lambda u: u[0] == "call" and u[3] == bb and u[1] == M.callee_str(t["f"]))
-            ctx.ob("R14.4", "error-is-the-failing-stage's", ok, pp.loc(bb), "the Err returned is the residual of the failing Exec::popen call")
+            errv = [(b2, si2, r2) for (b2, si2, v2, r2) in result_variants(pp, M.Explore(pp, start=e[1])) if v2 in ("Err", "from_residual")]
+            ok = len(errv) >= 1
+            for b2, si2, r2 in errv:
+                a = T.operand(r2["args"][0]) if si2 == "term" else T.operand(r2["ops"][0])
+                ok = ok and M.contains(a, lambda u: u[0] == "call" and u[3] == bb and u[1] == M.callee_str(t["f"]))
+            ctx.ob("R14.4", "error-is-the-failing-stage's", ok, pp.loc(bb), "the Err returned carries the error of the failing Exec::popen call")
     # ---- R14.2 the wait in drop cannot block on the handle's own stdin --------------------
     pd = prog.one("<popen::Popen as std::ops::Drop>::drop")
     Td = M.Terms(pd)
